@@ -372,7 +372,7 @@ def adp_cases(tier):
 def cases(tier, seed=0):
   cs = []
   from checks import fpgrid
-  cs.append(Case("fp grid GULP", fpgrid.grid_case, target="GULP", nr=41))
+  cs.append(Case("fp grid GULP", fpgrid.grid_case, target="GULP", nr=41, exact_points=True))
   if tier == "quick":
     for nr in (2, 3, 5):
       for npots in (1, 2):
